@@ -237,8 +237,8 @@ let sweep_case r k =
   | Some arr ->
     let (h, p, origin) = arr.((k / Array.length entries) mod Array.length arr) in
     if String.length h <= 2 * 20000 then begin
-      let mode = match (k / Array.length entries) mod 3 with
-        | 0 -> "prefix" | 1 -> "flip" | _ -> if String.length h >= 2 * 8192 then "lp" else "prefix" in
+      let mode = match (k / Array.length entries) mod 4 with
+        | 0 -> "prefix" | 1 -> "flip" | 2 -> "smallint" | _ -> if String.length h >= 2 * 8192 then "lp" else "smallint" in
       emit ~fn:"NoPanicSweep" ~tag:(e ^ ".sweep_" ^ mode ^ "." ^ origin) ~s:"ok" ~m:"ok" [ e; h; string_of_int p; mode ]
     end
 
@@ -270,6 +270,14 @@ let array_case r k =
   let arr_oid = pick r [| 1007; 1009; 1016; 1231; 1000; 1003; 2951; 1040; 1270 |] in
   emit ~fn:"NoPanic" ~tag:(Printf.sprintf "DecodeType.hostile_array_ndim%d" ndim) ~s:"ok" ~m:"ok" [ "DecodeType"; hexf v; "-"; string_of_int arr_oid ]
 
+(* one-page functions on buffers of several pages whose FIRST page is all zero / a valid page / junk, followed by other bytes *)
+let firstpage_case r k =
+  let e = pick r [| "ParseBlockInfo"; "VerifyPageChecksum"; "detectIndexType" |] in
+  let zero_page = List.init 8192 (fun _ -> byte_of_int 0) in
+  let first = match rint r 4 with 0 | 1 -> zero_page | 2 -> enc_page (valid_page r) | _ -> pageish r in
+  let rest = match rint r 3 with 0 -> pageish r | 1 -> enc_page (valid_page r) | _ -> rbytes r (1 + rint r 300) in
+  emit ~fn:"FirstPageOnly" ~tag:(e ^ ".first_page_only") ~s:"ok" ~m:"ok" [ e; hexf (first @ rest); string_of_int (rint r 5) ]
+
 let bomb_case r k =
   let depth = pick r [| 18; 24; 30; 40; 60 |] and fan = pick r [| 2; 2; 3 |] in
   let v = jsonb_bomb r depth fan in
@@ -281,6 +289,7 @@ let gen seed n =
   for k = 0 to n / 3 do corpus_case (rng_for seed (7000000 + k)) k done;
   for k = 0 to n / 12 do sweep_case (rng_for seed (8000000 + k)) k done;
   for k = 0 to 11 do bomb_case (rng_for seed (8500000 + k)) k done;
+  for k = 0 to n / 150 do firstpage_case (rng_for seed (8700000 + k)) k done;
   for k = 0 to n / 40 do array_case (rng_for seed (8600000 + k)) k done;
   for k = 0 to n / 30 do vl_case (rng_for seed (9000000 + k)) k done;
   for k = 0 to n / 10 do loc_case (rng_for seed (5000000 + k)) k done;
